@@ -8,6 +8,7 @@
   never stops.
 -/
 import MW.Lemmas.Deepen4Removal
+import MW.Lemmas.Deepen4Keys
 namespace MW.Lemmas.Deepen4
 open MW MW.Model.Ledger MW.Model.Persist MW.Spec.Persist MW.Spec.Chain MW.Spec.Books MW.Lemmas.Ledger
   MW.Lemmas.PersistOp MW.Lemmas.PersistFault MW.Lemmas.PersistCrash MW.Lemmas.Deepen3 MW.Lemmas.ImportJoin
@@ -24,13 +25,10 @@ structure JT (cfg : Cfg) (G : Block) (x : SysQ) (k : SkelT) : Prop where
   qsuf : x.queue <:+ k.queue
   phase : Phase cfg G x k
 
-/-- the two hypotheses on the STATE (not on the skeleton): C08's open follower invariants at the moment RemoveWallet
-    is called, and completion of the removal loop within the fuel given to `removeDrain` -/
-def guardEv (cfg : Cfg) (x : SysQ) : EvT → Prop
+/-- the one hypothesis on the STATE (not on the skeleton): C08's two open follower invariants at the moment
+    RemoveWallet is called -/
+def guardEv (_cfg : Cfg) (x : SysQ) : EvT → Prop
   | .removeMark _ => RemGuard x.P
-  | .removeDrain w fuel =>
-    (x.V.tasks.contains (.rem w) && !removeDone x.P w) = true →
-      (removeLoop cfg.limit cfg.n (envAt cfg.st x.chain) w (addrsOf x.V.keys w) fuel x.P x.V).isSome = true
   | _ => True
 
 def GuardT (cfg : Cfg) (cr : Bool) : SysQ → List EvT → Prop
@@ -55,7 +53,7 @@ theorem stepT_queue (cfg : Cfg) (cr : Bool) (x : SysQ) (ev : EvT) :
     split
     · split <;> rfl
     · rfl
-  | removeDrain w fuel =>
+  | removeDrain w =>
     simp only [stepT]
     split
     · split <;> rfl
@@ -104,8 +102,8 @@ theorem short_skStep (cfg : Cfg) (k : Skel) (e : EvQ) (h : ∀ c ∈ k.hist, c.l
 
 -- ------------------------------------------------------------------ every event keeps the invariant
 
-theorem JT_step {cfg : Cfg} {G : Block} (E : StaticOK cfg.st G) (hG : G.txs = []) (hb : cfg.batch > 0) (cr : Bool)
-    {x : SysQ} {k : SkelT} (ev : EvT) (hJ : JT cfg G x k) (hok : StepOKT cfg G k ev) (hg : guardEv cfg x ev) :
+theorem JT_step {cfg : Cfg} {G : Block} (E : StaticOK cfg.st G) (hG : G.txs = []) (hb : cfg.batch > 0)
+    (hl : cfg.limit > 0) (cr : Bool) {x : SysQ} {k : SkelT} (ev : EvT) (hJ : JT cfg G x k) (hok : StepOKT cfg G k ev) (hg : guardEv cfg x ev) :
     JT cfg G (stepT cfg cr x ev) (skStepT cfg k ev) := by
   obtain ⟨hshort, hqs, hph⟩ := hJ
   cases ev with
@@ -129,12 +127,11 @@ theorem JT_step {cfg : Cfg} {G : Block} (E : StaticOK cfg.st G) (hG : G.txs = []
         cases e with
         | extend b => exact JI_extend cr b hph hS
         | reorgTo m bs => exact JI_reorgTo cr m bs hph hS
-        | handle =>
-          have hw : QueueOnChain k := by
-            have := hwin; simp only [WindowOK, hbusy] at this; exact this
-          exact JI_handle E cr hph (fun b hb => hw b (hqs.subset hb))
-        | create w' => have := hwin; simp only [WindowOK, hbusy] at this; cases this
-        | newAddr w' stk => have := hwin; simp only [WindowOK, hbusy] at this; cases this
+        | handle => exact JI_handle E cr hph
+        | create w' => exact JI_create cr w' hph
+        | newAddr w' stk =>
+          have hne : w' ≠ w := by have := hwin; simp only [WindowOK, hbusy] at this; exact this
+          exact JI_newAddr cr w' stk hph hne hS
         | recvTx tx => exact JI_recvTx cr tx hph
         | crash =>
           cases cr with
@@ -147,8 +144,8 @@ theorem JT_step {cfg : Cfg} {G : Block} (E : StaticOK cfg.st G) (hG : G.txs = []
         | extend b => exact JR_node E cr (.extend b) (Or.inl ⟨b, rfl⟩) hph hS
         | reorgTo m bs => exact JR_node E cr (.reorgTo m bs) (Or.inr ⟨m, bs, rfl⟩) hph hS
         | handle => have := hwin; simp only [WindowOK, hbusy] at this
-        | create w' => have := hwin; simp only [WindowOK, hbusy] at this; cases this
-        | newAddr w' stk => have := hwin; simp only [WindowOK, hbusy] at this; cases this
+        | create w' => have := hwin; simp only [WindowOK, hbusy] at this
+        | newAddr w' stk => have := hwin; simp only [WindowOK, hbusy] at this
         | recvTx tx => have := hwin; simp only [WindowOK, hbusy] at this
         | crash =>
           cases cr with
@@ -203,16 +200,17 @@ theorem JT_step {cfg : Cfg} {G : Block} (E : StaticOK cfg.st G) (hG : G.txs = []
     unfold Phase at hph ⊢
     rw [hbusy] at hph
     exact JI_drain E hb cr fuel hph hshort hxq hfuel
-  | removeDrain w fuel =>
+  | removeDrain w =>
     have hbusy : k.busy = some (.rem w) := hok
-    have hq := stepT_queue cfg cr x (.removeDrain w fuel)
+    have hq := stepT_queue cfg cr x (.removeDrain w)
     refine ⟨hshort, by rw [hq]; exact hqs, ?_⟩
     unfold Phase at hph ⊢
     rw [hbusy] at hph
-    exact JR_removeDrain cr fuel hph hg
+    exact JR_removeDrain hl cr hph
 
 /-- the invariant along every history -/
-theorem JT_run {cfg : Cfg} {G : Block} (E : StaticOK cfg.st G) (hG : G.txs = []) (hb : cfg.batch > 0) (cr : Bool) :
+theorem JT_run {cfg : Cfg} {G : Block} (E : StaticOK cfg.st G) (hG : G.txs = []) (hb : cfg.batch > 0)
+    (hl : cfg.limit > 0) (cr : Bool) :
     ∀ (evs : List EvT) (x : SysQ) (k : SkelT), JT cfg G x k → RunOKT cfg G k evs → GuardT cfg cr x evs →
       JT cfg G (runT cfg cr x evs) (skRunT cfg k evs) := by
   intro evs
@@ -221,7 +219,7 @@ theorem JT_run {cfg : Cfg} {G : Block} (E : StaticOK cfg.st G) (hG : G.txs = [])
   | cons ev evs ih =>
     intro x k hJ hR hg
     rw [runT_cons, skRunT_cons]
-    exact ih _ _ (JT_step E hG hb cr ev hJ hR.1 hg.1) hR.2 hg.2
+    exact ih _ _ (JT_step E hG hb hl cr ev hJ hR.1 hg.1) hR.2 hg.2
 
 /-- what the crashing run has queued is always a suffix of what the run that never stops has queued -/
 theorem queue_suffixT (cfg : Cfg) : ∀ (evs : List EvT) (x1 x2 : SysQ), x1.queue <:+ x2.queue →
@@ -251,7 +249,7 @@ theorem queue_suffixT (cfg : Cfg) : ∀ (evs : List EvT) (x1 x2 : SysQ), x1.queu
     | removeMark w => exact h
     | removeStep w => exact h
     | importDrain w fuel => exact h
-    | removeDrain w fuel => exact h
+    | removeDrain w => exact h
 
 -- ------------------------------------------------------------------ quiet points
 
@@ -302,10 +300,11 @@ theorem quiet_agree {st : Static} {G : Block} {x1 x2 : SysQ} {k : Skel} (h1 : JQ
     the same tip copy and synced-to height, extensionally equal confirmed buckets and equal balances; every wallet is
     ready in both.  Coverage of the interleavings: `StepOKT` / `WindowOK` (one task at a time — the code refuses a
     second one with ErrTooManyTask; inside an import window crashes ANYWHERE, reorganisations, batches against a moved
-    node, handler steps for notifications that are on the node's chain; inside a removal window crashes while no
-    notification is pending and no handler steps); the two state hypotheses of a removal: `guardEv`. -/
+    node, handler steps for any queued notification, stale ones included, CreateWallet, NewAddress of the other
+    wallets; inside a removal window crashes while no notification is pending and no handler steps); the state
+    hypothesis of a removal: `guardEv`. -/
 theorem crash_equiv_tasks {cfg : Cfg} {G : Block} (E : StaticOK cfg.st G) (hG : G.txs = []) (hb : cfg.batch > 0)
-    (evs : List EvT) (x0 : SysQ) (k0 : SkelT) (hJ : JT cfg G x0 k0) (hR : RunOKT cfg G k0 evs)
+    (hl : cfg.limit > 0) (evs : List EvT) (x0 : SysQ) (k0 : SkelT) (hJ : JT cfg G x0 k0) (hR : RunOKT cfg G k0 evs)
     (hg1 : GuardT cfg true x0 evs) (hg2 : GuardT cfg false x0 evs)
     (hidle : (skRunT cfg k0 evs).busy = none) (hq : (runT cfg false x0 evs).queue = []) :
     (runT cfg true x0 evs).queue = [] ∧
@@ -328,8 +327,8 @@ theorem crash_equiv_tasks {cfg : Cfg} {G : Block} (E : StaticOK cfg.st G) (hG : 
     have := queue_suffixT cfg evs x0 x0 (List.suffix_refl _)
     rw [hq] at this
     exact List.suffix_nil.1 this
-  have h1 := (JT_run E hG hb true evs x0 k0 hJ hR hg1).phase
-  have h2 := (JT_run E hG hb false evs x0 k0 hJ hR hg2).phase
+  have h1 := (JT_run E hG hb hl true evs x0 k0 hJ hR hg1).phase
+  have h2 := (JT_run E hG hb hl false evs x0 k0 hJ hR hg2).phase
   unfold Phase at h1 h2
   rw [hidle] at h1 h2
   exact ⟨hqC, quiet_agree h1 h2 hqC hq⟩
@@ -337,10 +336,10 @@ theorem crash_equiv_tasks {cfg : Cfg} {G : Block} (E : StaticOK cfg.st G) (hG : 
 /-- every crash of such a history finds a wallet on which Start succeeds — stated for histories that end inside an
     import window (outside: round 3's `crash_start_ok`) -/
 theorem crash_start_ok_import {cfg : Cfg} {G : Block} (E : StaticOK cfg.st G) (hG : G.txs = []) (hb : cfg.batch > 0)
-    (evs : List EvT) (x0 : SysQ) (k0 : SkelT) (hJ : JT cfg G x0 k0) (hR : RunOKT cfg G k0 evs)
+    (hl : cfg.limit > 0) (evs : List EvT) (x0 : SysQ) (k0 : SkelT) (hJ : JT cfg G x0 k0) (hR : RunOKT cfg G k0 evs)
     (hg1 : GuardT cfg true x0 evs) (w : Wid) (hbusy : (skRunT cfg k0 evs).busy = some (.imp w)) :
     (Model.Persist.crash (envAt cfg.st (runT cfg true x0 evs).chain) cfg.n (runT cfg true x0 evs).P).ok = true := by
-  have h1 := (JT_run E hG hb true evs x0 k0 hJ hR hg1).phase
+  have h1 := (JT_run E hG hb hl true evs x0 k0 hJ hR hg1).phase
   unfold Phase at h1
   rw [hbusy] at h1
   exact (JI_crash E h1).2.2
